@@ -34,7 +34,7 @@ def make_doc(rng, kind):
             props.append((rng.choice(['event', 'ontology', 'edxml']), rng.choice(vals)))
         return G.event_xml('ta', s, props)
     plan = {'single': 'EEE', 'two': 'EOEb', 'three': 'EOEbOE', 'adjacent': 'OOEbE', 'foreign': 'EFEOFb', 'tail-ontology': 'EEO',
-            'blank-values': 'EOE', 'tail-text': 'EOEbTET'}[kind]
+            'blank-values': 'EOE', 'tail-text': 'EOEbTET', 'trailing-text': 'EOE', 'two-documents': 'EE'}[kind]
     onts = [more1, more2]
     for ch in plan:
         if ch == 'E':
@@ -155,14 +155,20 @@ def main(argv):
     ck.prove()
     rng = ck.rng
     terms, metas = [], []
-    kinds_list = ['single', 'two', 'three', 'adjacent', 'foreign', 'tail-ontology', 'blank-values', 'tail-text']
-    docs = [(k, make_doc(rng, k)) for k in (kinds_list if ck.thorough() else ['two', 'three', 'adjacent', 'foreign', 'blank-values', 'tail-text'])]
+    kinds_list = ['single', 'two', 'three', 'adjacent', 'foreign', 'tail-ontology', 'blank-values', 'tail-text', 'trailing-text', 'two-documents']
+    docs = [(k, make_doc(rng, k)) for k in (kinds_list if ck.thorough() else ['two', 'three', 'adjacent', 'foreign', 'blank-values', 'tail-text', 'trailing-text',
+                                                                              'two-documents'])]
+    REJECTED_AS_A_WHOLE = ('tail-text', 'trailing-text', 'two-documents')      # pull parsing may refuse these: every chunking must then refuse them alike
     seen = 0
     for name, (children, kinds) in docs:
         foreign = 'F' in kinds
         data = G.document(children, extra_ns='')
+        if name == 'trailing-text':
+            data += b'\n  stray text\n'          # content after the end of the root element
+        elif name == 'two-documents':
+            data += b'\n' + data
         want = pull_trace(data, foreign)
-        if want[1] is not None and name != 'tail-text':
+        if want[1] is not None and name not in REJECTED_AS_A_WHOLE:
             ck.oracle_failures.append({'signature': 'pull-parser-rejects-generated-document/' + name, 'input': {'document': data.decode('latin-1')}, 'observed': want[1]})
             continue
         offs = child_offsets(data, children)
@@ -180,6 +186,9 @@ def main(argv):
             if len(cuts) == 2:
                 ck.dist('cut:' + classify(data, children, kinds, cuts[0]))
             blank_case = False
+            if want[1] is not None and got[1] == want[1] and got[0] == want[0][:len(got[0])]:
+                # the document is refused as a whole: how much was delivered before the refusal may depend on when the offending bytes arrive
+                continue
             if got != want:
                 where = classify(data, children, kinds, cuts[0]) if len(cuts) == 2 else 'multi-chunk'
                 failing = got[1] or ('callbacks-differ' if got[0] != want[0] else 'none')
@@ -193,7 +202,7 @@ def main(argv):
                 ck.oracle_failures.append({'signature': 'chunking/%s/%s' % (where, failing),
                                            'input': {'document': data.decode('latin-1'), 'cuts': cuts, 'foreign': foreign, 'doc_kind': name},
                                            'observed': 'push: error=%s callbacks=%d; pull: callbacks=%d' % (got[1], len(got[0]), len(want[0]))})
-            if not foreign and not blank_case and name != 'tail-text' and (len(cuts) != 2 or cuts[0] % 7 == 0):
+            if not foreign and not blank_case and name not in REJECTED_AS_A_WHOLE and (len(cuts) != 2 or cuts[0] % 7 == 0):
                 # correspondence with the model: ids = child index
                 ids, oi = [], 0
                 model_children = [C('Build_child', C('COnt' if k == 'O' else 'CEv'), i, st, en) for i, (k, (st, en)) in enumerate(zip(kinds, offs))]
@@ -208,7 +217,7 @@ def main(argv):
         ck.sample({'doc_kind': name, 'bytes': n, 'children': kinds, 'offsets': offs})
         # filters
         for cuts in ([n // 2, n], [n // 3, 2 * n // 3, n], list(range(1, n + 1))[::97] + [n]):
-            if foreign or name == 'tail-text':
+            if foreign or name in REJECTED_AS_A_WHOLE:
                 break          # character data between the children is no EDXML content; whether a filter copies it is not part of the property
             try:
                 a, b = filter_bytes(data, cuts)
